@@ -21,6 +21,10 @@ Theorem C15_one_outcome : forall mime_charset decode json a x r,
   exists o, run mime_charset decode json a x r = T1 o /\ o <> HPanic.
 Proof. exact one_outcome. Qed.
 
+Theorem C15_one_outcome_decidable : forall mime_charset decode json a x r,
+  one_nonpanic (run mime_charset decode json a x r) = true.
+Proof. exact one_nonpanic_run. Qed.
+
 (* Proved part of the classification: everything outside the two listed classes (a status between 100
    and 599 that http-types has no name for; a header name or value that is not ASCII). *)
 Theorem C15_classify_partial : forall mime_charset decode json a x r,
